@@ -348,6 +348,94 @@ Proof.
   intros W G E. unfold parse_string. rewrite (lex_render l G), E. apply parse_print. exact W.
 Qed.
 
+(* ---------- a spelling for the tokens of an expression ---------- *)
+(* [parse_rendered] speaks about any spelling l of the printed tokens; this section computes one, so that the printer
+   can be run: integer tokens as integer literals, other number tokens as <m>e-<k> with the least k that works (the
+   value must be a non-negative decimal fraction in lowest terms - as every number token the lexer makes is) *)
+Definition Qeqb_struct (a b : Q) : bool := Z.eqb (Qnum a) (Qnum b) && Pos.eqb (Qden a) (Qden b).
+
+Lemma Qeqb_struct_eq a b : Qeqb_struct a b = true -> a = b.
+Proof.
+  destruct a as [an ad], b as [bn bd]. unfold Qeqb_struct. cbn [Qnum Qden]. intros H.
+  apply andb_prop in H as [Hn Hd]. apply Z.eqb_eq in Hn. apply Pos.eqb_eq in Hd. subst. reflexivity.
+Qed.
+
+Fixpoint find_scale (fuel : nat) (e : N) (q : Q) : option stok :=
+  let (dq, dr) := Z.div_eucl (Z.pos (pow10 e)) (Z.pos (Qden q)) in
+  if ((dr =? 0)%Z && (0 <=? Qnum q)%Z)%bool then
+    let m := Z.to_N (Qnum q * dq) in
+    if Qeqb_struct (lit_value m 0 (- Z.of_N e)) q then Some (SDec m e) else None
+  else match fuel with
+       | O => None
+       | S f => find_scale f (e + 1)%N q
+       end.
+
+Definition stok_of_tok (t : tok) : option stok :=
+  match t with
+  | TNum q true =>
+      let n := Z.to_N (Qnum q) in
+      if Qeqb_struct (lit_value n 0 0) q then Some (SInt n) else None
+  | TNum q false => find_scale (Pos.size_nat (Qden q)) 0 q
+  | TId s => if good_id s then Some (SId s) else None
+  | t => Some (SOp t)
+  end.
+
+Lemma find_scale_ok fuel : forall e q s, find_scale fuel e q = Some s -> tok_of s = TNum q false /\ good s = true.
+Proof.
+  induction fuel as [|f IH]; intros e q s; cbn [find_scale];
+    destruct (Z.div_eucl (Z.pos (pow10 e)) (Z.pos (Qden q))) as [dq dr];
+    destruct ((dr =? 0)%Z && (0 <=? Qnum q)%Z)%bool;
+    try discriminate; try (apply IH);
+    (destruct (Qeqb_struct _ q) eqn:E; [|discriminate]); intros [= <-];
+    cbn [tok_of good]; rewrite (Qeqb_struct_eq _ _ E); split; reflexivity.
+Qed.
+
+Lemma stok_of_tok_ok t s : stok_of_tok t = Some s -> tok_of s = t /\ good s = true.
+Proof.
+  destruct t as [q i|x| | | | | | | |]; cbn [stok_of_tok]; try (intros [= <-]; split; reflexivity).
+  - destruct i.
+    + destruct (Qeqb_struct _ q) eqn:E; [|discriminate]. intros [= <-]. cbn [tok_of good].
+      rewrite (Qeqb_struct_eq _ _ E). split; reflexivity.
+    + apply find_scale_ok.
+  - destruct (good_id x) eqn:E; [|discriminate]. intros [= <-]. cbn [tok_of good]. split; [reflexivity|exact E].
+Qed.
+
+Fixpoint spell (ts : list tok) : option (list stok) :=
+  match ts with
+  | [] => Some []
+  | t :: r => match stok_of_tok t, spell r with
+              | Some s, Some l => Some (s :: l)
+              | _, _ => None
+              end
+  end.
+
+Lemma spell_ok ts : forall l, spell ts = Some l -> map tok_of l = ts /\ Forall (fun t => good t = true) l.
+Proof.
+  induction ts as [|t r IH]; cbn [spell]; intros l.
+  - intros [= <-]. split; [reflexivity|constructor].
+  - destruct (stok_of_tok t) as [s|] eqn:Es; [|discriminate].
+    destruct (spell r) as [l'|] eqn:El; [|discriminate]. intros [= <-].
+    destruct (stok_of_tok_ok t s Es) as [Ht Hg]. destruct (IH l' eq_refl) as [Hm Hf].
+    cbn [map]. rewrite Ht, Hm. split; [reflexivity|constructor; assumption].
+Qed.
+
+Definition render_tokens (ts : list tok) : option string :=
+  match spell ts with Some l => Some (render l) | None => None end.
+
+Theorem render_tokens_lex ts s : render_tokens ts = Some s -> lex s = Some ts.
+Proof.
+  unfold render_tokens. destruct (spell ts) as [l|] eqn:E; [|discriminate]. intros [= <-].
+  destruct (spell_ok ts l E) as [Hm Hf]. rewrite (lex_render l Hf), Hm. reflexivity.
+Qed.
+
+(* the printer down to characters, and the round trip for it *)
+Definition render_expr (e : expr) : option string := render_tokens (print_expr e).
+
+Theorem render_expr_parse e s : writable e -> render_expr e = Some s -> parse_string s = Some e.
+Proof.
+  intros W H. unfold parse_string. rewrite (render_tokens_lex _ _ H). apply parse_print. exact W.
+Qed.
+
 (* ---------- the value of a literal ---------- *)
 Lemma pow10_Z n : Z.pos (pow10 n) = (10 ^ Z.of_N n)%Z.
 Proof.
@@ -387,5 +475,7 @@ Example rendered_example :
   let l := [SOp TLP; SOp TLP; SDec 25 1; SOp TRP; SOp TStar; SOp TLP; SId "V_m"; SOp TRP; SOp TRP; SOp TPlus; SOp TLP;
             SId "exp"; SOp TLP; SOp TMinus; SOp TLP; SInt 3; SOp TRP; SOp TRP; SOp TRP] in
   map tok_of l = print_expr e /\ forallb good l = true
-  /\ render l = "( ( 25e-1 ) * ( V_m ) ) + ( exp ( - ( 3 ) ) ) " /\ parse_string (render l) = Some e.
+  /\ render l = "( ( 25e-1 ) * ( V_m ) ) + ( exp ( - ( 3 ) ) ) " /\ parse_string (render l) = Some e
+  /\ render_expr e = Some (render l)
+  /\ render_expr (ENum (1 # 3) false) = None.
 Proof. vm_compute. repeat split; reflexivity. Qed.
